@@ -90,6 +90,16 @@ class Exec(Engine):
         return states
 
     def run_stmt(self, stmt, st):
+        ghost_at = getattr(self.c, "ghost_at", None) if getattr(self, "_inline_depth", 0) == 0 else None
+        if ghost_at:
+            text = ast.unparse(stmt)
+            for key, specs in ghost_at.items():
+                if text.startswith(key):
+                    self._ghost_used = getattr(self, "_ghost_used", set()) | {key}
+                    for ga in specs:
+                        for e, t in self.spec_conj([ga], st):
+                            self.oblige(st, t, "lemma", f"ghost-assert@[{key[:30]}][{e[:50]}]", stmt.lineno)
+                            st.assume(t)
         m = getattr(self, "st_" + type(stmt).__name__, None)
         if m is None:
             raise OutOfSubset(f"statement {type(stmt).__name__} at line {stmt.lineno}")
